@@ -1047,7 +1047,68 @@ end Jwt.Generated
     return "DigestTables.lean", text, info
 
 
-GENERATORS = [gen_base64, gen_alg, gen_common, gen_jwk, gen_ops, gen_cli, gen_conc, gen_ecframe, gen_ll, gen_base64code, gen_digests]
+def gen_gates(repo, build):
+    """jwt.c __check_hmac / __check_key_bits: per algorithm the size condition and the key type demanded"""
+    src = open(os.path.join(repo, "libjwt/jwt.c")).read()
+    src = re.sub(r"/\*.*?\*/", " ", src, flags=re.S)
+    src = re.sub(r"//[^\n]*", " ", src)
+    KTY = {"JWK_KEY_TYPE_OCT": "oct", "JWK_KEY_TYPE_RSA": "rsa", "JWK_KEY_TYPE_EC": "ec", "JWK_KEY_TYPE_OKP": "okp"}
+    rows = []
+    for fn in ("__check_hmac", "__check_key_bits"):
+        body = func_body(src, r"\b%s\s*\(\s*jwt_t\s*\*\s*jwt\s*\)\s*\{" % fn)
+        if not re.search(r"int\s+key_bits\s*=\s*jwt->key->bits\s*;", body):
+            raise ExtractError("%s: key_bits is no longer jwt->key->bits" % fn)
+        m = re.search(r"switch\s*\(\s*jwt->alg\s*\)\s*\{", body)
+        if not m:
+            raise ExtractError("%s: switch (jwt->alg) not found" % fn)
+        sw = body[m.end():]
+        seen = 0
+        for cm in re.finditer(r"((?:case\s+JWT_ALG_\w+\s*:\s*)+)(.*?)(?=case\s+JWT_ALG_|default\s*:)", sw, flags=re.S):
+            labels = re.findall(r"JWT_ALG_\w+", cm.group(1))
+            im = re.search(r"if\s*\((.*?)\)\s*return\s+__check_key_type\s*\(\s*jwt\s*,\s*(\w+)\s*\)\s*;", cm.group(2), flags=re.S)
+            if not im or im.group(2) not in KTY:
+                raise ExtractError("%s: case %s is not `if (<size test>) return __check_key_type(jwt, TYPE);`" % (fn, labels))
+            if len(re.findall(r"\breturn\b", cm.group(2))) != 1:
+                raise ExtractError("%s: case %s has another return" % (fn, labels))
+            terms = []
+            for t in im.group(1).split("||"):
+                tm = re.fullmatch(r"\s*key_bits\s*(>=|==)\s*(\d+)\s*", t)
+                if not tm:
+                    raise ExtractError("%s: size test %r outside the translatable fragment" % (fn, im.group(1)))
+                terms.append(("bits ≥ %s" if tm.group(1) == ">=" else "bits = %s") % tm.group(2))
+            for lab in labels:
+                rows.append((lab, " ∨ ".join(terms), KTY[im.group(2)], fn))
+            seen += len(labels)
+        if seen == 0:
+            raise ExtractError("%s: no cases" % fn)
+    text = f"""/- GENERATED by tie/extract.py from libjwt/jwt.c (__check_hmac, __check_key_bits) -- do not edit.
+   Per algorithm: the test on `jwt->key->bits` that lets the key through, and the key type `__check_key_type` then demands.
+   Regenerated from /repo on every check run; Jwt/Lemmas/Policy.lean proves the model's gates equal these. -/
+import Jwt.Keys
+namespace Jwt.Generated
+open Jwt
+
+/-- the size test of the case for algorithm `a` (false for algorithms neither function handles) -/
+def gateSize (a : Alg) (bits : Nat) : Prop :=
+  match a with
+{chr(10).join("  | .%s => %s" % (ALG_LEAN[l], c) for l, c, _, _ in rows)}
+  | _ => False
+
+/-- the key type `__check_key_type` is called with in that case -/
+def gateType (a : Alg) : Option Kty :=
+  match a with
+{chr(10).join("  | .%s => some .%s" % (ALG_LEAN[l], k) for l, _, k, _ in rows)}
+  | _ => none
+
+/-- which of the two functions handles the algorithm -/
+def gateFn : List (Alg × String) := [{", ".join('(.%s, "%s")' % (ALG_LEAN[l], f) for l, _, _, f in rows)}]
+
+end Jwt.Generated
+"""
+    return "GateTables.lean", text, {"rows": rows}
+
+
+GENERATORS = [gen_base64, gen_alg, gen_common, gen_jwk, gen_ops, gen_cli, gen_conc, gen_ecframe, gen_ll, gen_base64code, gen_digests, gen_gates]
 
 
 def main():
